@@ -261,7 +261,6 @@ pub open spec fn cat_data0(q: Seq<DataWithoutzooms>, n: int) -> Seq<u8>
 // write_chroms_without_zooms
 // =====================================================================================
 #[verifier::loop_isolation(false)]
-#[verifier::allow_complex_invariants]
 fn write_chroms_without_zooms(
     mut file: OutFile,
     mut receiver: Mailbox<DataWithoutzooms>,
@@ -305,9 +304,6 @@ fn write_chroms_without_zooms(
             section_iter@.len() == i,
             forall|k: int| 0 <= k < i ==> section_iter@[k] == iter_of(q[k].0),
             max_uncompressed_buf_size as int == maxall0(q, i),
-        ensures
-            
-            i == n,
         decreases
             
             n - i,
@@ -354,7 +350,6 @@ fn write_chroms_without_zooms(
 // `zooms.iter_mut()` / `zooms.into_iter()` become an index loop over `&mut zooms[j]` and a front-to-back draining
 // loop, each with the code's own pattern spliced in verbatim.
 #[verifier::loop_isolation(false)]
-#[verifier::allow_complex_invariants]
 fn write_chroms_with_zooms(
     mut file: OutFile,
     mut zooms_map: ZMap,
@@ -417,9 +412,6 @@ fn write_chroms_with_zooms(
             
             zooms_map@.dom() == dom,
             forall|x: u32| dom.contains(x) ==> level_after(#[trigger] zooms_map@[x], zm0[x], q, i, x),
-        ensures
-            
-            i == n,
         decreases
             
             n - i,
@@ -430,6 +422,10 @@ fn write_chroms_with_zooms(
             if i < n {
                 assert(q.subrange(i, n)[0] == q[i]);
                 assert(q.subrange(i, n).drop_first() =~= q.subrange(i + 1, n));
+                zm1 = zooms_map@;
+                zs = q[i].3@;
+                mx0 = max_uncompressed_buf_size as int;
+                assert(msg_pre(q[i], dom));
             }
         }
         let Some((sections, mut data, data_write_future, mut zooms)) = read else {
@@ -437,13 +433,6 @@ fn write_chroms_with_zooms(
         };
         // If we concurrently processing multiple chromosomes, the section buffer might have written some or all to a separate file
         // Switch that processing output to the real file
-
-        proof {
-            zm1 = zooms_map@;
-            zs = q[i].3@;
-            mx0 = max_uncompressed_buf_size as int;
-            assert(msg_pre(q[i], dom));
-        }
         data.switch(file);
         for j__ in 0..zooms.len() 
             invariant
